@@ -78,6 +78,7 @@ def run(ctx: Ctx):
     # ---- R08.a duplicate detection ---------------------------------------------------------
     ctx.rule("R08.a", "duplicate detection sees every definition: the transformer rejects a redefinition before atoms are merged in sets; gather_atoms records every kind, tagged; the predicate is 'more than one distinct value'", floor=10)
     check_redefinition_guard(ctx, "R08.a")
+    check_handlers_keep_every_entry(ctx, "R08.a")
     check_all_items_registered(ctx, "R08.a")
     from . import util as _u8a
 
@@ -286,6 +287,9 @@ def run(ctx: Ctx):
             if isinstance(st, ast.Try):
                 ctx.fail("R08.c", f"{rel}::<module>::try", "module-level try/except is not in the vetted table", f"{rel}:{st.lineno}")
     check_undefined_symbol(ctx, "R08.c")
+    from .c01 import check_dependencies_complete
+
+    check_dependencies_complete(ctx, "R08.c")  # a cycle is only seen through the dependencies that are recorded
     # the checks run on every load: nothing is remembered between models in module-level state
     from .c09 import global_mutations
 
@@ -411,6 +415,30 @@ def check_redefinition_guard(ctx: Ctx, rule: str):
 
     ok_skip = all(any(_non_atom_guard(c) and pol for c, pol in (common.cond_chain(tf.node, s) or [])) for s in skips)
     ctx.check(ok_order and ok_skip, rule, tf.key("check-before-merge"), "the check runs for every atom before it is added to a set", "TreeToODE.ode: the redefinition check does not precede the insertion into the component sets for every atom", tf.where())
+
+
+def check_handlers_keep_every_entry(ctx: Ctx, rule: str):
+    """What the transformer's block handlers (expression blocks, states, parameters) hand on is every entry they were given:
+    a value wrapped in dict.fromkeys / set / frozenset merges entries that *compare equal* - and equality of assignments
+    ignores the expression tree - before the duplicate check in TreeToODE.ode ever sees them."""
+    from sa import av as _av
+
+    from . import util as _u
+    from .c11 import grammar
+
+    G = grammar(ctx)
+    names = list(G.handlers(G.block_rule_name())) + ["states", "parameters"]
+    for h in names:
+        f = ctx.sm.func("transformer.py", f"TreeToODE.{h}", required=False)
+        if f is None:
+            continue
+        v = _u.value_of(ctx, f)
+        key = f.key("keeps-every-entry")
+        if _av.has_unk(v):
+            ctx.undecided(rule, key, f"what TreeToODE.{h} returns is not understood", f.where())
+            continue
+        merging = [c for c in _av.find_all(v, "call") if c[1].split(".")[-1] in ("fromkeys", "set", "frozenset", "unique", "OrderedDict") and c[2]] + [c for c in _av.find_all(v, "mcall") if c[2] in ("fromkeys",)]
+        ctx.check(not merging, rule, key, "every entry of the block is handed on", f"TreeToODE.{h} hands its entries on through `{_av.show(merging[0])[:80] if merging else ''}`, which merges entries that compare equal (two definitions of a name whose right-hand sides use the same variables compare equal): the second definition disappears before the duplicate check sees it", f.where())
 
 
 def check_all_items_registered(ctx: Ctx, rule: str):
